@@ -14,6 +14,9 @@ CHECKS["C06"] = dict(level="other", design="4/C06",
 CHECKS["C07"] = dict(level="other", design="4/C07",
    text="Inductive step decided by the solver: from every LFUCache state with capacity<=C and use counts<=M (every tie order; keys/values symbolic ints) each mapping operation matches a content+count model in which ties are free: victim has minimal count, list non-decreasing in count, value = last stored, Item.meta == model count, dict/list/links/size consistent; views terminate under a budget.",
    note="Trusted: CrossHair+z3; AssocDict stub for the internal dict in symbolic runs. Bounds: capacity<=3,count<=3 quick / <=4,<=4 thorough.")
+CHECKS["C16"] = dict(level="other", design="4/C16",
+   text="Total-function check decided by the solver: for n<=N unsorted intervals with unbounded symbolic ends (int, real and mixed families) and a symbolic probe key, construction raises KeyError exactly when an interval is inverted or two share a point; otherwise lookup / in / len / ascending complete iteration equal a linear scan. Every relative position of key and interval ends is a solver-decided path.",
+   note="Trusted: CrossHair+z3; floats modelled as finite reals (exact for comparisons; NaN/inf outside the claim); PairsMapping stub for the dict argument (pairwise different keys assumed). Bounds: N=3 quick / 4 thorough.")
 NOT_YET = {}
 def main():
     props = [json.loads(l)["id"] for l in open(os.path.join(ROOT, "properties.jsonl"))]
